@@ -7,23 +7,32 @@ C4 == 1..4
 C5 == 1..5
 C6 == 1..6
 OAB == {"A", "B"}
-OrgAAB == (1 :> "A") @@ (2 :> "A") @@ (3 :> "B")
-OrgABA == (1 :> "A") @@ (2 :> "B") @@ (3 :> "A")
-OrgAB == (1 :> "A") @@ (2 :> "B")
-OrgAA == (1 :> "A") @@ (2 :> "A")
-NoneC == -1
+NoneC == 0
 NoExpC == -1
 NoTOC == -1
-TO_none3 == (1 :> -1) @@ (2 :> -1) @@ (3 :> -1)
-TO_13 == (1 :> -1) @@ (2 :> 1) @@ (3 :> -1)
-TO_none2 == (1 :> -1) @@ (2 :> -1)
-TO_12 == (1 :> -1) @@ (2 :> 1)
-TO_02 == (1 :> -1) @@ (2 :> 0)
 Empty == {}
-MuxA == {"A"}
+OrgAAB == (1 :> "A") @@ (2 :> "A") @@ (3 :> "B")
+OrgABA == (1 :> "A") @@ (2 :> "B") @@ (3 :> "A")
+OrgAAA == (1 :> "A") @@ (2 :> "A") @@ (3 :> "A")
+TOnone == (1 :> -1) @@ (2 :> -1) @@ (3 :> -1)
+TO2 == (1 :> -1) @@ (2 :> 1) @@ (3 :> -1)
+TO0 == (1 :> -1) @@ (2 :> 0) @@ (3 :> -1)
+Cfg(o, mc, mk, ex, to, mux, mg) ==
+  [originOf |-> o, maxConn |-> mc, maxKeep |-> mk, expiry |-> ex, poolTO |-> to, mux |-> mux, muxGuess |-> mg]
+\* quick: one connection, keep-alive with expiry, one pool timeout
+CfgsQ1 == {Cfg(OrgAAB, 1, 1, 1, TO2, {}, {})}
+\* two connections, keep-alive limit below the connection limit
+CfgsQ2 == {Cfg(OrgABA, 2, 1, -1, TOnone, {}, {})}
+\* HTTP/2 guess that turns out HTTP/1.1 (re-queue), and real HTTP/2
+CfgsQ3 == {Cfg(OrgAAA, 1, 1, -1, TOnone, {}, {"A"}), Cfg(OrgAAB, 2, 2, -1, TOnone, {"A"}, {"A"})}
+CfgsT == { Cfg(o, mc, mk, ex, to, mux, mg) :
+             o \in {OrgAAB, OrgABA}, mc \in {1, 2}, mk \in {0, 1}, ex \in {-1, 0, 1},
+             to \in {TOnone, TO2, TO0}, mux \in {{}}, mg \in {{}, {"A"}} }
 DevKeep == {"KeepaliveCountsAll"}
 DevFresh == {"AbandonAssignedFresh"}
 DevTO == {"TimeoutAfterAssign"}
 DevGate == {"CancelAtGateLeavesNew"}
 DevIdle == {"IdleAlways"}
+DevEstab == {"EstabFailLeaksStream"}
+DevTls == {"CancelInEstabLeaksStream"}
 =============================================================================
